@@ -978,7 +978,7 @@ pub fn opsig(op: &Op) -> String {
     }
     match op {
         Op::LazyMulti(m) => format!("lazy{}({:?})x{}", m.depth, m.kind, m.uses.len()),
-        Op::IterScript { how, clone_at, .. } => format!("{how:?}.script{}", if clone_at.is_some() { "+clone" } else { "" }),
+        Op::IterScript { how, clone_at, end, .. } => format!("{how:?}.script{}{}", if clone_at.is_some() { "+clone" } else { "" }, end.suffix()),
         Op::CloneEmptyIn { target, .. } => format!("clone_empty_in({target:?})"),
         Op::ViewWrite { via, .. } => format!("write({via:?})"),
         Op::Push { src: s, .. } => format!("push({})", src(s)),
@@ -995,7 +995,7 @@ pub fn opsig(op: &Op) -> String {
         Op::TClear { .. } => "typed.clear".into(),
         Op::Get { how, .. } => format!("{how:?}"),
         Op::Iter { how, rev, .. } => format!("{how:?}{}", if *rev { ".rev" } else { "" }),
-        Op::Drain { typed, end, .. } => format!("{}drain{}", if *typed { "typed." } else { "" }, if *end == End::Forget { "+forget" } else { "" }),
+        Op::Drain { typed, end, .. } => format!("{}drain{}", if *typed { "typed." } else { "" }, end.suffix()),
         Op::Splice { typed, repl, end, .. } => {
             let r = match repl {
                 Repl::Wrappers(_) => "Wrapper",
@@ -1006,7 +1006,7 @@ pub fn opsig(op: &Op) -> String {
                 Repl::Mismatch(..) => "Mismatch",
                 Repl::MismatchRaw(..) => "MismatchRaw",
             };
-            format!("{}splice({r}){}", if *typed { "typed." } else { "" }, if *end == End::Forget { "+forget" } else { "" })
+            format!("{}splice({r}){}", if *typed { "typed." } else { "" }, end.suffix())
         }
         Op::CloneVec { .. } => "clone".into(),
         Op::CloneEmpty { .. } => "clone_empty".into(),
